@@ -47,8 +47,15 @@ func (t PredefinedTopics) GetTopicID(clientID, topic string) (uint16, bool) {
 		}
 	}
 	if tAll, ok := t["*"]; ok {
+		tClient := t[clientID]
 		for topicID, topicName := range tAll {
 			if topicName == topic {
+				// A client-specific entry with the same topicID
+				// takes precedence (see GetTopicName) => for this
+				// client, the topicID does not mean "topic".
+				if _, shadowed := tClient[topicID]; shadowed {
+					continue
+				}
 				return topicID, true
 			}
 		}
